@@ -727,6 +727,9 @@ def trace_sig(t, upto):
 def replay_file(ctx, obj):
     """./check Cxx --replay FILE: run the recorded history / trace again on the implementation"""
     import json
+    if isinstance(obj.get("replay"), dict):      # file written by ctx.violation: {sig, what, replay}
+        print(obj.get("sig"), "--", obj.get("what"))
+        obj = obj["replay"]
     if "history" in obj:
         rec = obj["history"]
         _, _, _, singles = parse_history(rec["h"])
